@@ -13,6 +13,10 @@ RULE = (
     "and META-INF/* listed exactly once; every listed file exists; a listed directory has a file below it. Inconsistencies "
     "already present in the source package are recorded as baseline and exempt. Evaluations = machine steps. Non-trivial "
     "history = repeated add_file of equal content, a del_part, a merge or a clone before the save; distinct by (source, ops)."
+    ' Also: merge sources whose styles reference pictures (two samples, synthetic fill-image documents sharing the add_file'
+    ' contents), del_part aimed at added pictures, Document.new(<sample as template>), folder packaging and saves in place '
+    'inside the history, composite rules inplace_cycle and readd_after_delete (add, delete, same name back through merge or'
+    ' add, save), sources with repeated directory entries.'
 )
 ASSUMPTIONS = [
     "zipfile reports entry order, compression and extra fields faithfully",
